@@ -190,6 +190,16 @@ func runC17(c *ctx) error {
 			}
 		case 6:
 			s := core.Pick(rng, []string{"git@", "user@", "a.b@"}) + randName(rng, false) + ":" + randName(rng, false) + "/" + randName(rng, false) + core.Pick(rng, []string{"", ".git"}) + ref
+			if rng.Intn(3) == 0 {
+				// scp-style without a user part: host (a name, an IP address, a name that is not a legal URL scheme),
+				// a colon, a path of one or two segments
+				host := core.Pick(rng, []string{"10.0.0.5", "192.168.1.20", "1host", "my_host", "git.example.com", randName(rng, false)})
+				path := randName(rng, false) + core.Pick(rng, []string{"", ".git"})
+				if rng.Intn(2) == 0 {
+					path = randName(rng, false) + "/" + path
+				}
+				s = host + ":" + path + ref
+			}
 			check(s, "scp")
 			if got, _ := fullSource(s); got != s {
 				c.res.Fail(core.OracleFailure{What: "scp-style source must be left as written", Input: s, Got: got})
